@@ -322,6 +322,20 @@ func c18R2(p *core.Prog, r *core.Report) {
 				found = true
 				seen := map[*ssa.BasicBlock]bool{}
 				work := append([]*ssa.BasicBlock{}, e.Block().Succs...)
+				// a Pop later in the same block (three-clause for: the post
+				// statement is fused into the body) is passed on every way out
+				after := false
+				for _, ins := range e.Block().Instrs {
+					if ins == e {
+						after = true
+						continue
+					}
+					if after {
+						if cc := core.StaticCallee(ins); cc != nil && recvName(cc) == "LockCommandQueue" && cc.Name() == "Pop" {
+							work = nil
+						}
+					}
+				}
 				escape := ""
 				for len(work) > 0 {
 					b := work[len(work)-1]
